@@ -1543,6 +1543,9 @@ class Interp(object):
         elif d.overlay.keys:
             raise Unsupported('symbolic key lookup in an updated symbolic dict')
         kz = self.z(key)
+        if not strict and default is None:
+            # deferred: absent -> None, present -> the value (no fork unless inspected)
+            return OptVal(z3.Not(z3.Select(d.present, kz)), self.mk(z3.Select(d.val, kz), 'str'))
         if self.ctx.branch(z3.Select(d.present, kz)):
             return self.mk(z3.Select(d.val, kz), 'str')
         if strict:
